@@ -1969,8 +1969,13 @@ GRend(int32 grid)
     if (NULL == (gr_ptr = (gr_info_t *)HAatom_object(grid)))
         HGOTO_ERROR(DFE_GRNOTFOUND, FAIL);
 
-    if (--gr_ptr->access)
+    /* Other GRstart() calls on this file are still outstanding: release only
+     * this GR ID and leave the shared GR information for the remaining IDs */
+    if (--gr_ptr->access) {
+        if (NULL == HAremove_atom(grid))
+            HGOTO_ERROR(DFE_INTERNAL, FAIL);
         HGOTO_DONE(SUCCEED);
+    }
 
     hdf_file_id = gr_ptr->hdf_file_id;
     file_rec    = HAatom_object(hdf_file_id);
